@@ -254,3 +254,34 @@ CHECKS["C16"] = dict(
 )
 
 NOT_YET = {}
+
+
+# ---- later additions to the descriptions (applied on the assembled strings) --------------------------------------
+_UPDATES = [
+    ("C01", "text", "rows beyond the input size must be exactly zero. Complete scopes:",
+     "rows beyond the input size must be exactly zero; squares are also computed with one pointer for both operands, the inverse DFT also in place. A sparse layer of N = 16384 and 65536 is part of the quick tier. Complete scopes:"),
+    ("C02", "text", "with dense injective operands in the exactness regime;",
+     "with dense injective operands in the exactness regime (and, on the small box, inputs whose coefficients are all multiples of 2^32 / 2^35);"),
+    ("C11", "text", "every new_*/delete_* pair is run at every m = 1..65536 under a wrapped allocator and must leave no live block.",
+     "every new_*/delete_* pair is run at every m = 1..65536 under a wrapped allocator and must leave no live block; every constructor at every size is run with freshly allocated heap memory reading 0x00, 0xFF and 0xA5 (the wrapped allocator decides it) and the object must behave bit-identically; the opaque result of vec_znx_dft is read back through the inverse transform and must return the input."),
+    ("C12", "text", "Engine B executes every op of the alphabet (module-level entry points on shared FFT64/NTT120 modules, table kernels on shared tables, every *_simple function in two dimensions and parameter values)",
+     "Engine B executes every op of the alphabet (module-level entry points - out of place and in place - on shared FFT64/NTT120 modules of four dimensions, table kernels on shared tables, every exported kernel incl. the in-place coefficient kernels at up to three size layers, constructors, every *_simple function in two dimensions and parameter values)"),
+    ("C13", "text", "(res==a, res==b, res==a==b; idft over its own input; pointwise r==a, r==b, r==a==b)",
+     "(res==a, res==b, res==a==b, res==a with a compacting stride; idft and idft_tmp_a over their own input; pointwise r==a, r==b, r==a==b)"),
+    ("C15", "text", "every module-level entry point on FFT64 and NTT120 modules, and table-based kernels.",
+     "every module-level entry point (in place and out of place) on FFT64 and NTT120 modules, table-based and exported kernels, and constructors. Fresh heap memory reads 0x00 for the baselines and 0xA5 during the exploration."),
+    ("C15", "text", "In addition every entry-point and kernel case is run 8 times with rotating buffer offsets 0..56 and three prefills of outputs and scratch.",
+     "In addition every entry-point and kernel case is run 8 times with rotating buffer offsets 0..56 and three prefills of outputs and scratch (MXCSR control bits must come back unchanged), and every constructor at every size is run with freshly allocated memory reading 0x00, 0xFF and 0xA5: same results."),
+    ("C15", "note", "the state is what the process image shows (no CPU control registers);", "the state is what the process image shows plus the MXCSR control bits;"),
+    ("C16", "text", "The model state graph is enumerated breadth first to depth 4 (quick) / 5-6 (thorough) for N in {4,8} (both VMP layouts; 16 and 64 thorough) and both module types;",
+     "The model state graph is enumerated breadth first to depth 5-6 (quick) / 5-7 (thorough) for N in {4,8} (both VMP layouts; 16 and 64 thorough), both module types and three initial data sets (small; edge of the representation incl. INT64_MIN for NTT120; every coefficient a multiple of 2^32);"),
+    ("C16", "note", "initial vectors are fixed small polynomials.", "three fixed initial data sets."),
+    ("C18", "text", "is executed with every const operand snapshotted including stride padding;",
+     "- out of place and with every same-pointer pattern (res==a, res==b, res==a==b, a==b, in-place normalisation and inverse DFTs) - is executed with every const operand snapshotted including stride padding;"),
+    ("C18", "text", "after the call each must be bit-identical,",
+     "after the call each must be bit-identical (for a source that shares its buffer with the output: the bytes outside the output's extent),"),
+]
+for _cid, _field, _old, _new in _UPDATES:
+    if _old not in CHECKS[_cid][_field]:
+        raise SystemExit("registry: description update for %s no longer applies: %s" % (_cid, _old[:60]))
+    CHECKS[_cid][_field] = CHECKS[_cid][_field].replace(_old, _new, 1)
